@@ -12,6 +12,14 @@ CHECKS = {
         'covered by boundary-clustered random traces, exhaustive only at the scaled limb base.',
    technique='TLA+ spec + TLC exhaustive model checking + TLC trace validation of recorded executions'),
 }
+CHECKS['C02'] = dict(
+   text='Exhaustive: TLC evaluates the decode clauses on the frozen TLA+ instruction table for all 65536 first words, and '
+        'TLC validates, for all 65536 words, what the real decoder (recording visitor), the interpreter instantiation, the '
+        'disassembler and the parser report against that table.',
+   design_ref='5.2',
+   note='Trusted: TLC, CommunityModules, g++; TeakDecodeTable.tla (transcribed once from the pinned decoder.h, frozen). '
+        'The execution clause (second word consumed, never executed) is covered by the instruction-level traces of C01.',
+   technique='TLA+ spec + TLC exhaustive enumeration + TLC validation of total decode dumps from the real code')
 NOT_YET = {}
 def main():
     props = [json.loads(l)['id'] for l in open(os.path.join(V, 'properties.jsonl'))]
